@@ -51,9 +51,9 @@ CHECKS = {
    design="4 (C04), 3.2"),
  "C11": dict(
    level="model_checking",
-   text="TLC exhaustively checks FrpsWorkPool (initial request burst, offers racing the close of the pool channel, fast / slow / timeout / closed paths of GetWorkConn, StartWorkConn retries, drain at teardown; 3 users x 4 work connections: 1.75M states) against OneUserPerWork, PoolBounded, AdvanceBounded, DrainedAtEnd, NoLeak; the real frps is driven by a scripted client that delivers, withholds, delays, floods and kills work connections while user connections arrive on two proxies and the session ends (half the time parked right after close(workConnCh) with a late work connection injected); every recorded execution is validated against Trace_FrpsWorkPool, including the number of ReqWorkConn the client really received, which proxy and user address each StartWorkConn announced, whether each user connection was bridged or closed within userConnTimeout, and that every delivered work connection was closed by the server after the session ended.",
-   note="Trusted: hook placement, goroutine-id attribution of pool hooks to user connections, TLC. The pool channel is lock-free, so the trace specification accepts the re-orderings between a channel operation and its (later) log entry; FIFO order inside the pool is not claimed. Direct tcp accept path only.",
-   technique="TLA+ spec FrpsWorkPool model-checked with TLC + trace validation of real frps executions (Trace_FrpsWorkPool)",
+   text="TLC exhaustively checks FrpsWorkPool (initial request burst, offers racing the close of the pool channel, fast / slow / timeout / closed paths of GetWorkConn, StartWorkConn retries, drain at teardown; 3 users x 4 work connections: 1.75M states) against OneUserPerWork, PoolBounded, AdvanceBounded, DrainedAtEnd, NoLeak; the real frps is driven by a scripted client that delivers, withholds, delays, floods and kills work connections while user connections arrive on two proxies and the session ends (half the time parked right after close(workConnCh) with a late work connection injected); every recorded execution is validated against Trace_FrpsWorkPool, including the number of ReqWorkConn the client really received, which proxy and user address each StartWorkConn announced, whether each user connection was bridged or closed within userConnTimeout, and that every delivered work connection was closed by the server after the session ended. HandOff models the channel hand-off from a group worker / the vhost muxer to the proxy's listener (NoOrphan, Settles; deviation HandOffLeak must be caught); on a real frps the accepting goroutine of each such path is parked at a hook right before the hand-off while the proxy is closed, and the user's socket must be closed afterwards (Trace_HandOff).",
+   note="Trusted: hook placement, goroutine-id attribution of pool hooks to user connections, TLC. The pool channel is lock-free, so the trace specification accepts the re-orderings between a channel operation and its (later) log entry; FIFO order inside the pool is not claimed. Pool histories on the direct tcp accept path; the hand-off race on group and vhost paths.",
+   technique="TLA+ specs FrpsWorkPool and HandOff model-checked with TLC + trace validation of real frps executions (Trace_FrpsWorkPool, Trace_HandOff)",
    design="4 (C11), 3.3"),
  "C13": dict(
    level="model_checking",
